@@ -146,6 +146,10 @@ def handle (line : String) : String :=
             match p.get i with
             | .ok s => " " ++ showStr s
             | .error e => " !" ++ e)
+  | ["safeuri", v] =>
+    match parseStr v with
+    | some s => if safeUri s then "safe" else "unsafe"
+    | none => "bad-op"
   | ["fixval", v] =>
     match parseStr v with
     | some s => showStr (fixValue s)
